@@ -161,6 +161,11 @@ _orig_apply = A.World2.apply_env
 
 
 def _apply_env(self, lab):
+    if lab[0] == "S" and lab[1] == SIG["HUP"] and list.__len__(self.arbiter.SIG_QUEUE) < 5:
+        # what the configuration source says at the moment a HUP reaches the master (and is queued): that reload is owed
+        if not hasattr(self, "hup_disk"):
+            self.hup_disk = []
+        self.hup_disk.append(int(self.disk["workers"]))
     if lab[0] == "START":
         # end of the prelude (TTIN / TTOU before the first reload): from the next idle visit of the top of the loop on, the
         # run is observed and compared with Model/Reload.v started in THAT state (num_workers != cfg.workers)
@@ -288,6 +293,20 @@ def judge(case, w):
         sigs = [l[1] for l in w.resolved if l[0] == "S"]
         last_hup = max(i for i, sg in enumerate(sigs) if sg == SIG["HUP"]) if SIG["HUP"] in sigs else -1
         resized_after = any(sg in (TTIN, TTOU) for sg in sigs[last_hup + 1:])
+        # every HUP that reached the master is honoured: the configuration in force is the one the source held when the LAST of
+        # them arrived (or a later one) - a HUP arriving while an earlier reload is under way is not a duplicate
+        owed = getattr(w, "hup_disk", [])
+        edits_after = False
+        seen_hup = False
+        for l in reversed(w.resolved):
+            if l[0] == "S" and l[1] == SIG["HUP"]:
+                seen_hup = True
+                break
+            if l[0] == "E":
+                edits_after = True
+        if owed and seen_hup and not edits_after and int(a.cfg.workers) != owed[-1] and not case.get("crashes"):
+            fails.append(("the last HUP was not honoured: the configuration in force says workers = %d, the source said %d when that HUP "
+                          "reached the master (a HUP that arrives during an earlier reload is dropped?)" % (a.cfg.workers, owed[-1]), None))
         if not resized_after and (len(ws) != int(a.cfg.workers) or len(ws) != int(a.num_workers)):
             fails.append(("after the reloads the pool has %d workers; cfg.workers = %d, num_workers = %d" % (len(ws), a.cfg.workers, a.num_workers), key))
     return fails
@@ -313,6 +332,10 @@ def fixed_cases():
     # HUP bursts (the queue holds 5)
     cs.append({"cfg": {"workers": 2, "bind": 0}, "script": boot + [("S", SIG["HUP"])] * 7 + [M] * 150, "kind": "burst", "tail_loops": 10})
     cs.append({"cfg": {"workers": 1, "bind": 0}, "script": boot + [("S", SIG["HUP"]), M, M, M, ("S", SIG["HUP"])] + [M] * 60, "kind": "double"})
+    # a second HUP, with a changed configuration, at every point of the first reload
+    for i in range(1, 14):
+        cs.append({"cfg": {"workers": 2, "bind": 0}, "kind": "hup-during-reload", "tail_loops": 12,
+                   "script": boot + [("E", 3, 0), ("S", SIG["HUP"])] + [M] * i + [("E", 1, 0), ("S", SIG["HUP"])] + [M] * 60})
     # a told worker's exit + SIGCHLD at every point of a reload
     for i in range(0, 26):
         cs.append({"cfg": {"workers": 2, "bind": 0}, "kind": "delivery-point",
